@@ -169,6 +169,7 @@ def coq_build(generators=(), timeout=3000):
         rc, out, err, _ = _run([sys.executable, os.path.join(VERIF, "tools", "mkproject.py")])
         if rc != 0:
             res["ok"] = False
+            res["fatal"] = "mkproject failed"
             res["log"] += err
             return res
         mk = os.path.join(COQ, "Makefile")
@@ -177,6 +178,7 @@ def coq_build(generators=(), timeout=3000):
             rc, out, err, _ = _run(["coq_makefile", "-f", "_CoqProject", "-o", "Makefile"], cwd=COQ)
             if rc != 0:
                 res["ok"] = False
+                res["fatal"] = "coq_makefile failed"
                 res["log"] += err
                 return res
         rc, out, err, _ = _run(["make", "-k", "-j%d" % NPROC], cwd=COQ, timeout=timeout)
@@ -209,17 +211,45 @@ def coq_build(generators=(), timeout=3000):
                                             "driver.ml", "-o", "driver.new"], cwd=bdir, timeout=600)
                 if rc != 0:
                     res["ok"] = False
+                    res["fatal"] = "extracted driver does not build"
                     res["log"] += "\nDRIVER BUILD FAILED\n" + err[-3000:]
                 else:
                     os.replace(os.path.join(bdir, "driver.new"), DRIVER)
         else:
             res["ok"] = False
+            res["fatal"] = "extraction output missing"
             res["log"] += "\nextraction output missing"
     finally:
         res["wall_s"] = time.time() - t0
         fcntl.flock(lock, fcntl.LOCK_UN)
         lock.close()
     return res
+
+
+def dep_closure(target):
+    """Transitive .v dependencies (paths relative to coq/) of a target such as 'props/C10.v',
+    read from coqdep's output (coq/.Makefile.d)."""
+    deps = {}
+    try:
+        text = open(os.path.join(COQ, ".Makefile.d")).read().replace("\\\n", " ")
+    except FileNotFoundError:
+        return None
+    for line in text.split("\n"):
+        if ":" not in line:
+            continue
+        lhs, rhs = line.split(":", 1)
+        outs = [x for x in lhs.split() if x.endswith(".vo")]
+        ins = [x[:-1] for x in rhs.split() if x.endswith(".vo")]
+        for o in outs:
+            deps[o[:-1]] = ins
+    seen, todo = set(), [target]
+    while todo:
+        t = todo.pop()
+        if t in seen:
+            continue
+        seen.add(t)
+        todo += deps.get(t, [])
+    return seen
 
 
 def check_props_file(pid, timeout=900):
@@ -379,8 +409,22 @@ class Ctx:
     def n(self, quick, thorough):
         return int((thorough if self.thorough else quick) * self.budget_scale)
 
+    def broken_deps(self):
+        """Files in the dependency closure of props/<pid>.v (and of the extraction) that failed to build."""
+        if not self.build:
+            return ["no build"]
+        failed = list(self.build.get("failed", []))
+        bad = list(self.build.get("gen_errors", []))
+        if self.build.get("fatal"):
+            bad.append(self.build["fatal"])
+        clo = dep_closure("props/%s.v" % self.pid)
+        for f in failed:
+            if clo is None or f in clo or f.startswith("extract/"):
+                bad.append("does not compile: " + f)
+        return bad
+
     def proof_ok(self):
-        return bool(self.build and self.build["ok"] and self.props and self.props["ok"])
+        return bool(self.build and not self.broken_deps() and self.props and self.props["ok"])
 
     def violation(self, kind, what, case, signature=None, extra=None, no_input=False):
         """Record a violation.  `signature` (dict) identifies the failing input class for
